@@ -148,12 +148,11 @@ def _digest_native(x):
         return [_digest_native(v) for v in x]
     if isinstance(x, (str, int, bool)) or x is None:
         return x
-    try:
-        import numpy as _np
-        if isinstance(x, _np.ndarray):
-            return [_digest_native(v) for v in x.tolist()]
-    except Exception:
-        pass
+    import numpy as _np
+    if isinstance(x, _np.ndarray):
+        return [_digest_native(v) for v in x.tolist()]
+    if isinstance(x, _np.bool_):
+        return bool(x)
     return float(x)
 
 
@@ -169,6 +168,8 @@ def _digest_sym(x, model):
         if x.k != core.FIN:
             return {core.PINF: math.inf, core.NINF: -math.inf, core.NAN: math.nan}[x.k]
         return core._model_float(model, x.r)
+    if isinstance(x, SymBool):
+        return bool(z3.is_true(model.eval(x.e, model_completion=True)))
     return float(x)
 
 
@@ -196,7 +197,7 @@ def _new_result():
     return dict(paths=0, claims=0, discharged=0, cex=0, inconclusive=0, cands={}, goals={},
                 goal_witness={}, witnesses_ok=0, witnesses_diverged=0, witnesses_mismatch=0,
                 mismatch_samples=[], samples=[], funcs=[], stats={}, errors=[], inconclusive_list=[],
-                claims_by_clause={}, loop_bound_exceeded=0)
+                claims_by_clause={}, loop_bound_exceeded=0, paths_by_shape={})
 
 
 def run_task(task):
@@ -297,10 +298,13 @@ def run_task(task):
                                                                 tb=traceback.format_exc()[-600:]))
 
         deadline = opts.get("deadline")
-        n, left = e.explore(fn, on_path, prefixes=prefixes, max_paths=opts.get("task_paths", 1500),
+        first = len(prefixes) == 1 and prefixes[0] == []
+        n, left = e.explore(fn, on_path, prefixes=prefixes,
+                            max_paths=opts.get("first_task_paths", 30) if first else opts.get("task_paths", 1500),
                             deadline=deadline)
         cov.stop()
         res["funcs"] = sorted(cov.seen)
+        res["paths_by_shape"][f"{hname}:{json.dumps(shape, sort_keys=True)}"] = n
         res["stats"] = e.stats()
         M.restore()
         return res, left
@@ -348,6 +352,8 @@ def merge(total, res):
         total["goals"][k] = total["goals"].get(k, 0) + v
     for k, v in res["claims_by_clause"].items():
         total["claims_by_clause"][k] = total["claims_by_clause"].get(k, 0) + v
+    for k, v in res["paths_by_shape"].items():
+        total["paths_by_shape"][k] = total["paths_by_shape"].get(k, 0) + v
     for k, v in res["goal_witness"].items():
         total["goal_witness"].setdefault(k, v)
     for k, v in res["cands"].items():
